@@ -80,7 +80,7 @@ def pinv_event(rng):
   d = int(rng.integers(1, 7))
   k = int(rng.integers(0, 3)) if d > 1 else 0
   Vs, s2 = givens_product(rng, d, k) if d > 1 else (np.array([[1]], dtype=object), 1)
-  mag = float(2.0 ** int(rng.integers(-40, 41)))
+  mag = float(2.0 ** int(rng.integers(-70, 41)))            # (spectra far below 1 in absolute terms: the cut-off is RELATIVE)
   kind = str(rng.choice(['full', 'exact_zeros', 'roundoff_zeros', 'wide', 'explicit_tol']))
   w = [float(rng.integers(1, 2000)) * mag for _ in range(d)]
   tol = None
